@@ -33,6 +33,7 @@ import (
 //       script := ev (',' ev)* ; ev := o<m>:<id of the buffer the pool handed out> | c<m>
 //       -> ids=<buffer id per open> free=<sorted ids of the buffers left in the pool>
 //   pool.series <lazy|eager> <nstores> <openErr idx,…|-> <abort>  ProxyStore.Series with ShardInfo over fake stores
+//   pool.series2 <lazy|eager> <nstores> <openErr|-> <abort> <recvErr store idx,…|-> <limit>   … with Recv failures and a Limit
 //       -> puts=<times the buffer taken for store i was put back | x (never taken)>
 //
 // sync.Pool is third-party, nondeterministic in general: the process runs with GOMAXPROCS(1) and the
@@ -294,9 +295,21 @@ func execC17(c *hlib.Ctx, tok []string) string {
 			}
 		}
 		return "ids=" + showInts(ids) + " free=" + showInts(o.drain(c))
-	case "pool.series":
-		if len(tok) != 5 {
+	case "pool.series", "pool.series2":
+		if (tok[0] == "pool.series" && len(tok) != 5) || (tok[0] == "pool.series2" && len(tok) != 7) {
 			return "bad-op"
+		}
+		recvErr := map[int]bool{}
+		limit := int64(0)
+		if tok[0] == "pool.series2" {
+			for _, x := range hlib.ParseInts(tok[5], ",") {
+				recvErr[int(x)] = true
+			}
+			l, err := strconv.ParseInt(tok[6], 10, 64)
+			if err != nil {
+				return "bad-op"
+			}
+			limit = l
 		}
 		n, err := strconv.Atoi(tok[2])
 		if err != nil || n < 0 || n > 16 {
@@ -321,6 +334,9 @@ func execC17(c *hlib.Ctx, tok []string) string {
 			if openErr[i] {
 				fc.openErr = errOpen
 			}
+			if recvErr[i] {
+				fc.recvErrAt = i % 2 // fails before the first or after the first frame
+			}
 			clients = append(clients, fc)
 		}
 		p := store.NewProxyStore(nil, nil, func() []store.Client { return clients }, component.Query, labels.EmptyLabels(), 0, strategy)
@@ -333,7 +349,7 @@ func execC17(c *hlib.Ctx, tok []string) string {
 			strat = storepb.PartialResponseStrategy_ABORT
 		}
 		srv := &collectServer{ctx: context.Background()}
-		_ = p.Series(&storepb.SeriesRequest{MinTime: 0, MaxTime: 100, PartialResponseStrategy: strat,
+		_ = p.Series(&storepb.SeriesRequest{MinTime: 0, MaxTime: 100, PartialResponseStrategy: strat, Limit: limit,
 			Matchers:  []storepb.LabelMatcher{{Type: storepb.LabelMatcher_RE, Name: "a", Value: ".+"}},
 			ShardInfo: c17shard}, srv)
 		taken := o.next // buffers are taken in store order from an empty pool: buffer i belongs to store i
@@ -548,6 +564,23 @@ func genC17(c *hlib.Ctx) {
 		c.Count(fmt.Sprintf("series:stores%d", n))
 		c.Count("series:" + strat)
 		c.Do(fmt.Sprintf("pool.series %s %d %s %s", strat, n, hlib.Join(errs, ","), abort), true)
+		// the same with Recv failures and a Limit (streams are not drained: some response sets are only
+		// closed by the deferred Close)
+		var rerrs []string
+		for j := 0; j < n; j++ {
+			if r.Chance(1, 4) {
+				rerrs = append(rerrs, strconv.Itoa(j))
+			}
+		}
+		lim := 0
+		if r.Chance(1, 2) {
+			lim = r.Range(1, 3)
+			c.Count("series:limit")
+		}
+		if len(rerrs) > 0 {
+			c.Count("series:recv-failures")
+		}
+		c.Do(fmt.Sprintf("pool.series2 %s %d %s %s %s %d", strat, n, hlib.Join(errs, ","), abort, hlib.Join(rerrs, ","), lim), true)
 		c17gc()
 	}
 }
